@@ -219,6 +219,7 @@ type ftpCase struct {
 }
 
 const magic = "SENTINEL-MAGIC-CONTENT-c11"
+const markerName = "only-outside-the-root.c11-marker"
 
 type snapshot map[string]string
 
@@ -316,6 +317,10 @@ func checkFTP(c ftpCase) error {
 		os.MkdirAll(filepath.Join(s, "a"), 0755)
 		os.WriteFile(filepath.Join(s, "secret.txt"), []byte(magic+" "+filepath.Base(s)), 0644)
 		os.WriteFile(filepath.Join(s, "a", "f"), []byte(magic), 0644)
+		// a name no generated command can create inside the root: seeing it in a listing
+		// proves the listing came from outside
+		os.WriteFile(filepath.Join(s, markerName), []byte(magic), 0644)
+		os.WriteFile(filepath.Join(s, "a", markerName), []byte(magic), 0644)
 	}
 	os.WriteFile(filepath.Join(in.FsBase, "f"), []byte(magic), 0644)
 	before := snap(append(sentinels, filepath.Join(in.FsBase, "f"))...)
@@ -336,7 +341,7 @@ func checkFTP(c ftpCase) error {
 	// the client's own argument, so only the sentinel files' CONTENT counts there)
 	noteData := func(what string, data []byte) {
 		reply := strings.HasSuffix(what, " reply")
-		if bytes.Contains(data, []byte(magic)) || (!reply && bytes.Contains(data, []byte("secret.txt"))) {
+		if bytes.Contains(data, []byte(magic)) || (!reply && bytes.Contains(data, []byte(markerName))) {
 			leaked = append(leaked, fmt.Sprintf("%s returned data from outside the root: %q", what, clip(data)))
 		}
 	}
